@@ -191,7 +191,8 @@ PROPS = {
     "C13": dict(
         module="OrbitModel.Properties.C13",
         theorems=["Orbit.C13.framing_round_trips", "Orbit.C13.save_errors_exactly_when_a_record_is_too_long",
-                  "Orbit.C13.save_errors_or_loads_back", "Orbit.C13.size_guards_tied_to_go_text", "Orbit.C13.pinned_tree_wrote_unloadable_snapshot"],
+                  "Orbit.C13.save_errors_or_loads_back", "Orbit.C13.size_guards_tied_to_go_text", "Orbit.C13.snapshot_written_while_the_log_grows_loads_back",
+                  "Orbit.C13.save_is_racing_save_at_rest", "Orbit.C13.reordered_reads_would_write_unloadable_snapshots", "Orbit.C13.pinned_tree_wrote_unloadable_snapshot"],
         families=[("snapshot", 60, 1500, 10)],
         corr_fields={"values", "heads", "idx", "len", "ack", "sync"},
         nontrivial=lambda lines: any(l.startswith("snapsaved ") or l.startswith("snapsave ") for l in lines),
@@ -202,9 +203,11 @@ PROPS = {
     "C14": dict(
         module="OrbitModel.Properties.C14",
         theorems=["Orbit.C14.address_root_is_the_manifest", "Orbit.C14.different_inputs_different_addresses",
-                  "Orbit.C14.printed_address_parses_back", "Orbit.C14.accepted_names", "Orbit.C14.pinned_tree_answered_a_foreign_address"],
+                  "Orbit.C14.printed_address_parses_back", "Orbit.C14.accepted_names", "Orbit.C14.create_over_existing_is_refused",
+                  "Orbit.C14.local_only_open_of_unknown_is_refused", "Orbit.C14.open_yields_recorded_type_and_write_list",
+                  "Orbit.C14.create_then_open_anywhere", "Orbit.C14.create_address_is_determined_by_inputs", "Orbit.C14.pinned_tree_answered_a_foreign_address"],
         families=[("address", 80, 2500, 10)],
-        corr_fields={"values", "idx"},
+        corr_fields={"values", "idx", "create", "open", "addr", "pathjoin"},
         nontrivial=lambda lines: sum(1 for l in lines if l.startswith(("detaddr ", "created ", "opened ", "parsed "))) >= 3,
         rule="names drawn from plain, nested, unicode, empty, dotted, climbing (../x, a/../../b), absolute and address-like strings x 3 store types x write lists (own id, several ids, wildcard, empty); DetermineAddress on 2-3 peers, Create with and without overwrite, Open by address on other peers (plain and local-only), print/parse of every address: equal inputs must give equal addresses on every peer, distinct inputs distinct roots, refused exactly when the model refuses, type and write list as created; non-trivial = >= 3 address operations",
         trusted_base=["the manifest CID is an injective function of (name, type, access-controller address) — sha2-256 + dag-cbor, parameter H of the theorem", "Go path.Join/Clean modelled on segment lists (Model/Path.lean), compared on every generated name"],
@@ -274,12 +277,12 @@ _TIE = ("Lean 4 theorems about a hand-written model + correspondence harness: th
         "property's L1 predicate on the implementation's own observations")
 MANIFEST_TEXT = {
     "C13": dict(
-        text="Kernel-checked theorems: the 16-bit record framing round-trips for every list of records that save accepts; save returns an error exactly when the header or an entry exceeds 65535 bytes; for every reachable log whose entries the access controller accepts, save either errors or produces bytes from which a fresh store rebuilds a log with the same entries, Values() and heads. The pinned tree's silent length wrap-around (record of 65536 bytes written with length 0) is a proved witness replayed on the real store before the fix: commits (F9a-c). The snapshot family saves on real stores (payloads around the 64 KiB limit) and loads into brand-new instances.",
+        text="Kernel-checked theorems: the 16-bit record framing round-trips for every list of records that save accepts; save returns an error exactly when the header or an entry exceeds 65535 bytes; for every reachable log whose entries the access controller accepts, save either errors or produces bytes from which a fresh store rebuilds a log with the same entries, Values() and heads. A snapshot written WHILE the log grows (SaveSnapshot takes no lock and reads heads, length, entries in that order) is proved to load back as the state at the first read; with the reads reordered it would be written without error and refused by the loader (proved). The pinned tree's silent length wrap-around (record of 65536 bytes written with length 0) is a proved witness replayed on the real store before the fix: commits (F9a-c). The snapshot family saves on real stores (payloads around the 64 KiB limit) and loads into brand-new instances.",
         note="Trusted: Lean kernel + standard axioms; the JSON codec of one entry is a parameter with a left inverse (sampled by the harness); the unixfs file layer is a fake that stores files whole.",
         technique="Lean 4 proof (codec round-trip by induction; rebuilt log joins to the same entries/order/heads) with differential correspondence on real save/load"),
     "C14": dict(
-        text="Kernel-checked theorems over a segment-list model of Go's path.Join/Clean: the address answered names the manifest the inputs were hashed into; with an injective manifest hash different (name, type, access controller) give different addresses; every answered address prints and parses back to itself; the accepted names are characterised exactly. The pinned tree answered another database's address for a climbing name (decide-checked witness, replayed on the real code before the fix: commit). The address family compares DetermineAddress/Create/Open/Parse on 2-3 real peers with the model over adversarial names, store types and write lists.",
-        note="Trusted: Lean kernel + standard axioms; injectivity of the manifest CID (hash + dag-cbor) is a hypothesis; Create/Open refusal logic is compared on the implementation, not proved.",
+        text="Kernel-checked theorems over a segment-list model of Go's path.Join/Clean: the address answered names the manifest the inputs were hashed into; with an injective manifest hash different (name, type, access controller) give different addresses; every answered address prints and parses back to itself; the accepted names are characterised exactly; over a model of Create/Open written in the order of the Go code: creating over an existing local database is refused unless overwrite, a local-only open of an unknown database is refused, an open yields the recorded type and write list whatever options are passed, and what Create returned is what every later Open returns on this and on any other instance. The pinned tree answered another database's address for a climbing name (decide-checked witness, replayed on the real code before the fix: commit). The address family compares DetermineAddress/Create/Open/Parse on 2-3 real peers with the model over adversarial names, store types and write lists.",
+        note="Trusted: Lean kernel + standard axioms; injectivity of the manifest CID (hash + dag-cbor) is a hypothesis; the Create/Open model is hand-written (its abstractions are listed at the top of Model/OpenCreate.lean) and run against the real instance on every create/open of the address family; only the default ipfs access controller is modelled.",
         technique="Lean 4 proof (path cleaning lemmas, parse/print inverse, injectivity) with differential correspondence over adversarial names"),
     "C15": dict(
         text="Kernel-checked theorems: the effective limit (n <= 0 falls back to MaxHistory, non-positive means all); Join(size) panics exactly when size exceeds the length and otherwise keeps the newest size entries in order; for EVERY chain length and EVERY limit, Load(n) on a fresh store with one cached head lists exactly the newest min(n,T) entries oldest first (all for n <= 0) even when the fetcher over-fetches; loading one head never panics on a closed log. The pinned tree's panic (n > total) and emptied log (n = 0) are decide-checked and were replayed on the real store before the fix: commit. The limit family loads real multi-writer logs with every boundary limit and checks count, order, newest and most-recent-n on the listing.",
